@@ -181,6 +181,8 @@ C09b_LinearInY == (IsFit /\ exp.wellposed) => LinearInY(ProbOf(c), exp)
 C09b_WeightScaleInvariant == (IsFit /\ exp.wellposed) => WeightScaleInvariant(ProbOf(c), exp)
 C09b_YHomogeneous == (IsFit /\ exp.wellposed) => YHomogeneous(ProbOf(c), exp)
 C09b_SupportScaleInvariant == (IsFit \/ IsPoly) => SupportScaleInvariant(c.t, c.k, c.x, c.w)
+C09b_GridScaleInvariant == (IsFit /\ exp.wellposed) => GridScaleInvariant(ProbOf(c), exp)
+C09b_GridSupportInvariant == (IsFit \/ IsPoly) => GridSupportInvariant(c.t, c.k, c.x, c.w)
 C09b_PolyReproduced == (IsFit /\ exp.wellposed /\ c.pc # <<>>) => PolyReproduced(ProbOf(c), c.pc, exp)
 (* the determinant criterion and the Schoenberg-Whitney criterion of part (c) agree *)
 C09b_SupportAgrees == IsFit => (exp.wellposed <=> Determined(SupportOfData(c.t, c.k, c.x, c.w), 1..Len(c.t)))
